@@ -93,6 +93,11 @@ class C05(Check):
         if st[0] != "model":
             return
         _, n, rows, card, chain, pen, gap, limit, eb = st
+        ndev = (card is not None) + bool(chain) + (pen != "zero") + (gap != 0.0) + (limit is not None) + (eb is not None) + len(rows) - 1
+        if ndev >= 2 and n > 2:
+            return      # a third feature only on two-binary models
+        if n >= 5:
+            return
         if card is None:
             for k in (1, 2):
                 if k <= n:
